@@ -240,7 +240,7 @@ func VP_C07_locals() {
 	r.SetThis(data)
 	ref := &vpRefState{store: map[string]interface{}{"x": xv, "y": nil}}
 	want, wok := ref.eval(prog)
-	got, err := r.resolve(context.Background(), prog.ast())
+	got, err := vpExact(r, context.Background(), prog.ast())
 	vpObserve("result", wok, err == nil)
 	if !wok {
 		vpAssert("C07/locals/error-expected", err != nil)
@@ -252,7 +252,7 @@ func VP_C07_locals() {
 			vpAssert("C07/locals/call-count", calls == ref.calls)
 			// locals are visible afterwards and in a second evaluation by the same runner
 			for _, ln := range vpLocalNames {
-				v2, err2 := r.resolve(context.Background(), vpId(ln))
+				v2, err2 := vpExact(r, context.Background(), vpId(ln))
 				vpAssert("C07/locals/visible-later", err2 == nil && vpSameRef(v2, ref.store[ln]))
 			}
 		}
@@ -335,7 +335,7 @@ func VP_C07_sequencing() {
 	r.SetThis(data)
 	ref := &vpRefState{store: map[string]interface{}{"x": 0, "y": nil}}
 	want, wok := ref.eval(prog)
-	got, err := r.resolve(context.Background(), prog.ast())
+	got, err := vpExact(r, context.Background(), prog.ast())
 	vpAssert("C07/sequencing/no-error", wok && err == nil)
 	if err != nil || !wok {
 		return
@@ -343,7 +343,7 @@ func VP_C07_sequencing() {
 	vpAssert("C07/sequencing/value", vpSameRef(got, want))
 	vpAssert("C07/sequencing/call-count", calls == ref.calls)
 	for _, ln := range vpLocalNames {
-		v2, err2 := r.resolve(context.Background(), vpId(ln))
+		v2, err2 := vpExact(r, context.Background(), vpId(ln))
 		vpAssert("C07/sequencing/binding-visible-in-later-evaluation", err2 == nil && vpSameRef(v2, ref.store[ln]))
 	}
 	vpReach("C07/sequencing/done")
@@ -369,7 +369,7 @@ func VP_C07_builtins() {
 	// $a = num, fn($a), fn(num), [$a, num]
 	prog := vpBin(SK_Comma, vpBin(SK_Comma, vpBin(SK_Comma, vpBin(SK_Equals, vpId("$a"), vpId("num")), call(vpId("$a"))), call(vpId("num"))),
 		&ArrayLiteralExpression{Elements: vpList(vpId("$a"), vpId("num"))})
-	got, err := r.resolve(context.Background(), prog)
+	got, err := vpExact(r, context.Background(), prog)
 	vpAssert("C07/builtins/no-error", err == nil)
 	arr, ok := got.([]interface{})
 	if err != nil || !ok || len(arr) != 2 {
@@ -429,7 +429,7 @@ func VP_C07_operators() {
 	vpAllowDollarKeys("data")
 	r := NewRunner()
 	r.SetThis(data)
-	got, err := r.resolve(context.Background(), code.Expression)
+	got, err := vpExact(r, context.Background(), code.Expression)
 	vpObserve("form", form, err != nil)
 	neg, coef := pv.c < 0, uint64(pv.c)
 	if neg {
@@ -446,7 +446,7 @@ func VP_C07_operators() {
 	}
 	// also after an evaluation that failed (e.g. % on a fraction): the caller's number is untouched
 	vpAssert("C07/operators/caller-number-unchanged", vpBigEq(num, neg, coef, -pv.s) && (num.Signbit() == neg || coef == 0))
-	if v2, err2 := r.resolve(context.Background(), vpId("$a")); err2 == nil {
+	if v2, err2 := vpExact(r, context.Background(), vpId("$a")); err2 == nil {
 		a2, ok := v2.(*decimal.Big)
 		vpAssert("C07/operators/later-read-sees-bound-value", ok && vpBigEq(a2, neg, coef, -pv.s))
 	}
@@ -474,7 +474,7 @@ func VP_C07_rebind() {
 		if perr != nil {
 			return nil, perr
 		}
-		return r.resolve(context.Background(), code.Expression)
+		return vpExact(r, context.Background(), code.Expression)
 	}
 	_, err1 := ev(first[fi])
 	vpAssert("C07/rebind/first-assignment-succeeds", err1 == nil)
@@ -532,7 +532,7 @@ func VP_C07_spread() {
 	}
 	r := NewRunner()
 	r.SetThis(map[string]interface{}{"digits": digits})
-	v, rerr := r.resolve(context.Background(), code.Expression)
+	v, rerr := vpExact(r, context.Background(), code.Expression)
 	vpObserve("spread", p.f, vpShowValue(v))
 	vpAssert("C07/spread/no-error", rerr == nil)
 	if p.want < 0 {
